@@ -124,7 +124,7 @@ bit_slicer_tmpl(vbi_bit_slicer *d, uint8_t *raw,
 			raw0 = (raw[0 + endian] + raw[1 - endian] * 256) & mask;
 			raw1 = (raw[2 + endian] + raw[3 - endian] * 256) & mask;
 			tr = d->thresh >> THRESH_FRAC;
-			d->thresh += ((raw0 - tr) * (int) ABS(raw1 - raw0)) >>
+			d->thresh += ((raw0 - (int) tr) * (int) ABS(raw1 - raw0)) >>
 				((bpp == 15) ? 2 : 3);
 			t = raw0 * OVERSAMPLING;
 		} else {
